@@ -42,23 +42,39 @@ Fixpoint linearization (progs : list (list op)) (sched : list nat) : list op :=
     end
   end.
 
-(* ---------- the observer channel / storage lock protocol (finding F10) ----------
+(* ---------- the observer channel / storage lock protocol ----------
    state: number of writers that hold the storage READ lock and are blocked in `send` on the full channel,
-   messages queued, whether the worker is blocked waiting for the storage WRITE lock. *)
+   messages queued, whether the worker is blocked waiting for the storage WRITE lock.
+   `pstep_old` is the protocol of the pinned code (send().await under the lock: finding F10);
+   `pstep` is the protocol since commit 62ff185 of the code (try_send: a request is dropped when the channel is full). *)
 Record proto := { p_blocked_senders : N; p_queue : N; p_worker_waits_write : bool }.
+Definition proto_init : proto := {| p_blocked_senders := 0; p_queue := 0; p_worker_waits_write := false |}.
+
+Inductive pstep_old (cap : N) : proto -> proto -> Prop :=
+| POSend s : p_queue s < cap ->                       (* a writer (holding the read lock) enqueues and releases the lock *)
+    pstep_old cap s {| p_blocked_senders := p_blocked_senders s; p_queue := p_queue s + 1; p_worker_waits_write := p_worker_waits_write s |}
+| POBlock s : p_queue s = cap ->                      (* channel full: the writer blocks in send, still holding the read lock *)
+    pstep_old cap s {| p_blocked_senders := p_blocked_senders s + 1; p_queue := p_queue s; p_worker_waits_write := p_worker_waits_write s |}
+| POWorkerTake s : 0 < p_queue s -> p_worker_waits_write s = false ->   (* the worker dequeues a rotation request and asks for the write lock *)
+    pstep_old cap s {| p_blocked_senders := p_blocked_senders s; p_queue := p_queue s - 1; p_worker_waits_write := true |}
+| POWorkerGetsLock s : p_worker_waits_write s = true -> p_blocked_senders s = 0 ->  (* granted only when no reader is left *)
+    pstep_old cap s {| p_blocked_senders := 0; p_queue := p_queue s; p_worker_waits_write := false |}
+| POUnblock s : 0 < p_blocked_senders s -> p_queue s < cap ->             (* room in the channel: a blocked sender completes *)
+    pstep_old cap s {| p_blocked_senders := p_blocked_senders s - 1; p_queue := p_queue s + 1; p_worker_waits_write := p_worker_waits_write s |}.
 
 Inductive pstep (cap : N) : proto -> proto -> Prop :=
-| PSend s : p_queue s < cap ->                       (* a writer (holding the read lock) enqueues and releases the lock *)
+| PSend s : p_queue s < cap ->                       (* try_send succeeds; the writer goes on and releases the lock *)
     pstep cap s {| p_blocked_senders := p_blocked_senders s; p_queue := p_queue s + 1; p_worker_waits_write := p_worker_waits_write s |}
-| PBlock s : p_queue s = cap ->                      (* channel full: the writer blocks in send, still holding the read lock *)
-    pstep cap s {| p_blocked_senders := p_blocked_senders s + 1; p_queue := p_queue s; p_worker_waits_write := p_worker_waits_write s |}
-| PWorkerTake s : 0 < p_queue s -> p_worker_waits_write s = false ->   (* the worker dequeues a rotation request and asks for the write lock *)
+| PDrop s : p_queue s = cap ->                       (* channel full: the request is dropped; the writer goes on and releases the lock *)
+    pstep cap s s
+| PWorkerTake s : 0 < p_queue s -> p_worker_waits_write s = false ->
     pstep cap s {| p_blocked_senders := p_blocked_senders s; p_queue := p_queue s - 1; p_worker_waits_write := true |}
-| PWorkerGetsLock s : p_worker_waits_write s = true -> p_blocked_senders s = 0 ->  (* granted only when no reader is left *)
-    pstep cap s {| p_blocked_senders := 0; p_queue := p_queue s; p_worker_waits_write := false |}
-| PUnblock s : 0 < p_blocked_senders s -> p_queue s < cap ->             (* room in the channel: a blocked sender completes *)
-    pstep cap s {| p_blocked_senders := p_blocked_senders s - 1; p_queue := p_queue s + 1; p_worker_waits_write := p_worker_waits_write s |}.
+| PWorkerGetsLock s : p_worker_waits_write s = true -> p_blocked_senders s = 0 ->
+    pstep cap s {| p_blocked_senders := 0; p_queue := p_queue s; p_worker_waits_write := false |}.
 
+Inductive preach_old (cap : N) : proto -> proto -> Prop :=
+| pro_refl s : preach_old cap s s
+| pro_step a b c : pstep_old cap a b -> preach_old cap b c -> preach_old cap a c.
 Inductive preach (cap : N) : proto -> proto -> Prop :=
 | pr_refl s : preach cap s s
 | pr_step a b c : pstep cap a b -> preach cap b c -> preach cap a c.
